@@ -467,6 +467,27 @@ func main() {
 								fmt.Sprintf("the validator answered with a vector of shape %s for a chain of %d certificates (so it did not report every certificate OK); revocation passed=%v, Verify accepted=%v", shape, n, res != nil && res.Error == nil, verr == nil), wit)
 						}
 					}
+					// (a') a certificate is reported revoked and the vector lacks an entry for another one: revoked it is
+					if n >= 2 {
+						for _, shape := range []string{"nil-entry-first", "nil-entry-last"} {
+							vec := append([]result.Result(nil), okVec...)
+							revokedAt := n - 1
+							if shape == "nil-entry-last" {
+								revokedAt = 0
+							}
+							vec[revokedAt] = result.ResultRevoked
+							rv := &vecRev{vec: vec, shape: shape}
+							var out *notation.VerificationOutcome
+							pv, _ := lib.Guard(func() { out, _ = mk(rv).Verify(context.Background(), desc, set.raw[f+"|"+sc], vo) })
+							r.Eval(fmt.Sprintf("revoked-beside-a-missing-entry|%d|%s|%s|%v|%s", n, f, sc, legacyIface, shape))
+							r.Event("revoked-beside-a-missing-entry")
+							res := revOf(out)
+							if pv != nil || res == nil || res.Error == nil || !strings.Contains(strings.ToLower(res.Error.Error()), "revoked") || !strings.Contains(res.Error.Error(), set.chain[revokedAt].Subject.String()) {
+								r.Violation(map[string]string{"kind": "revoked-not-reported", "scheme": sc, "legacy": fmt.Sprint(legacyIface), "action": "enforce", "shape": shape + "+revoked"},
+									fmt.Sprintf("certificate #%d of %d is reported revoked and the entry for another one is missing: result %v (panic=%v); must fail as revoked and name %q", revokedAt+1, n, res, pv, set.chain[revokedAt].Subject.String()), nil)
+							}
+						}
+					}
 					// (b) ONE verifier, the same signature twice: the first time every certificate is OK, then the leaf is revoked
 					rv := &vecRev{vec: append([]result.Result(nil), okVec...)}
 					v := mk(rv)
